@@ -620,6 +620,7 @@ impl World {
         let stats_before = self.st().stats();
         let steps_before = self.sh.steps.get();
         self.sh.stabilising.set(true);
+        self.sh.in_handlers.set(false);
         let st = self.st().clone();
         if let Some((a, off)) = self.fault {
             if a == self.action_index && self.sh.panic_at.get().is_none() {
@@ -1773,7 +1774,14 @@ impl World {
     /// C13: after an injected panic escaped stabilise. Returns the kind of user function that panicked.
     pub fn post_fault_checks(&mut self) -> &'static str {
         let kind = self.sh.step_kinds.borrow().last().copied().unwrap_or("?");
-        let from_handler = kind == "handler";
+        // a projection that runs because a handler script reads an observer is part of that handler
+        let from_handler = kind == "handler" || (kind == "projection" && self.sh.in_handlers.get());
+        // a map_ref projection also runs on behalf of the engine after propagation has finished
+        // (to decide and to build the update a handler is given): the harness cannot tell those
+        // calls from the ones made during propagation without knowing the engine's phase, so after
+        // a panic in a projection reads may fail or may answer, but an answer must be the fully
+        // propagated value (the clause "never a mix of updated and non-updated nodes")
+        let answer_allowed = from_handler || kind == "projection";
         let refs = self.fault_refs.clone().unwrap_or_default();
         let mut problems = vec![];
         {
@@ -1799,15 +1807,15 @@ impl World {
                     match got {
                         Err(_) => {}
                         Ok(v) => {
-                            if !from_handler {
+                            if !answer_allowed {
                                 problems.push(format!(
                                     "after a panic in a {kind} function escaped stabilise, observer o{i} on n{} still returns {:?} (possibly half-propagated)",
                                     o.node, v
                                 ));
                             } else if refs.get(o.node).copied().flatten() != Some(v) && !self.lossy {
                                 problems.push(format!(
-                                    "after a panic in an update handler, observer o{i} on n{} returns {:?}, the fully propagated value is {:?}",
-                                    o.node, v, refs.get(o.node)
+                                    "after a panic in {}, observer o{i} on n{} returns {:?}, the fully propagated value is {:?}",
+                                    if kind == "projection" { "a map_ref projection" } else { "an update handler" }, o.node, v, refs.get(o.node)
                                 ));
                             }
                         }
@@ -1830,7 +1838,7 @@ impl World {
             problems.push(format!("a further stabilise after the escaped panic ran user functions before failing: {:?}", &ran[..ran.len().min(3)]));
         }
         // reads still do not expose values afterwards
-        if !from_handler {
+        if !answer_allowed {
             let t = self.tables.borrow();
             for (i, _o) in self.observers.iter().enumerate() {
                 if let Some(h) = t.observers[i].first() {
